@@ -97,8 +97,8 @@ int main(void) {
     qhashtbl_t *t = qhashtbl(0, 0); int dead = 0;
     while (fgets(line, sizeof line, stdin)) {
         if (line[0] == '#' || line[0] == '\n') continue;
-        char op[32]; a1[0] = a2[0] = 0;
-        sscanf(line, "%31s %s %s", op, a1, a2);
+        char op[32], a3[32]; a1[0] = a2[0] = a3[0] = 0;
+        sscanf(line, "%31s %s %s %31s", op, a1, a2, a3);
         if (!strcmp(op, "new")) {
             if (t && !dead) qhashtbl_free(t);
             t = qhashtbl((size_t)strtoull(a1, NULL, 10), (++ntab & 1) ? 0 : QHASHTBL_THREADSAFE); dead = 0;   /* every other table with its lock */ reset_ids(); continue;
@@ -126,6 +126,15 @@ int main(void) {
                 while (qhashtbl_getnext(t, &o, false)) if (!strcmp(o.name, k)) { own = o.name; break; }
                 bool r = qhashtbl_put(t, own ? own : k, v, nv); int e = errno;
                 scribble_free(k, nk + 1); scribble_free(v, nv);
+                if (r) printf("true"); else printf("fail %s", ename(e));
+            } else if (!strcmp(op, "putpre")) {
+                /* putpre <key> <value> <n>: put(key, value), then hand the table's own buffer for that key (get with newmem=false)
+                   back with a shorter length n: the stored value must then be the first n bytes, with length n */
+                size_t nk = unhex(a1, b1), nv = unhex(a2, b2); size_t n = (size_t)atol(a3);
+                char *k = dupstr(b1, nk); void *v = dupbuf(b2, nv);
+                bool r = qhashtbl_put(t, k, v, nv); int e = errno; scribble_free(v, nv);
+                if (r) { size_t sz = 0; void *d = qhashtbl_get(t, k, &sz, false); r = d && qhashtbl_put(t, k, d, n); e = errno; }
+                scribble_free(k, nk + 1);
                 if (r) printf("true"); else printf("fail %s", ename(e));
             } else if (!strcmp(op, "puthuge")) {
                 /* a value whose copy cannot be allocated (SIZE_MAX/2 bytes; the allocation fails before anything is read): the put is
